@@ -1191,3 +1191,38 @@ Lemma max_time_prefix_wrong :
 Proof.
   split; [reflexivity|]. split; apply sp_time_secs_iff; reflexivity.
 Qed.
+
+(* ---------------------------------------------------------------- _maybe_max_resources *)
+Lemma dominates_refl r : valid_res r -> dominates r r.
+Proof.
+  intros H. apply valid_res_parts in H as (_ & _ & Hm & Ht).
+  split; [apply le_oz_refl|]. split; [apply le_oz_refl|]. split; [now apply size_le_refl|now apply dur_le_refl].
+Qed.
+
+(* resources of a NestedPipeFunc without an explicit argument: None iff no child has resources, otherwise a valid
+   value at least as large as every child's; the children are untouched *)
+Lemma maybe_max_upper_bound ch : Forall valid_res (somes ch) ->
+  match fst (fst (maybe_max_resources ENone ch)) with
+  | None => somes ch = []
+  | Some x => exists res, x = Ok res /\ valid_res res /\ forall c, In c (somes ch) -> dominates res c
+  end
+  /\ snd (fst (maybe_max_resources ENone ch)) = ch.
+Proof.
+  intros Vs. unfold maybe_max_resources. destruct (somes ch) as [|c [|c2 l]] eqn:Es; cbn [fst snd].
+  - split; reflexivity.
+  - split; [|reflexivity]. inversion Vs as [|? ? Vc _]; subst. exists c. split; [reflexivity|].
+    split; [exact Vc|]. intros c' [<-|[]]. now apply dominates_refl.
+  - split; [|reflexivity]. destruct (combine_max_upper_bound _ Vs) as (res & Ec & Vres & Hd).
+    rewrite Ec. cbn [fst]. exists res. auto.
+Qed.
+
+(* outside the property text (which lists cpus, gpus, memory and wall time): combine_max does not carry nodes and
+   cpus_per_node (nor parallelization_mode) into its result *)
+Lemma combine_max_drops_nodes :
+  exists r, valid_res r /\ nodes r = Some 2%Z /\ cpus_per_node r = Some 4%Z
+            /\ exists res, fst (combine_max [r; r]) = Ok res /\ nodes res = None /\ cpus_per_node res = None.
+Proof.
+  exists (mkR None (Some 4%Z) (Some 2%Z) None None None None [] (s "external")).
+  split; [apply sp_valid_iff; reflexivity|]. split; [reflexivity|]. split; [reflexivity|].
+  eexists. split; [vm_compute; reflexivity|]. split; reflexivity.
+Qed.
